@@ -19,7 +19,7 @@ type PeerSpec struct {
 	Name   string `json:"name"`
 	Dial   bool   `json:"dial"`    // not pre-attached: dialled on demand through the NewConnection callback
 	DialErr bool  `json:"dial_err"` // the dial fails
-	Role   int    `json:"role"`    // 0 healthy, 1 stuck writer (never reads), 2 failing reader, 3 failing writer
+	Role   int    `json:"role"`    // 0 healthy, 1 stuck writer (never reads), 2 failing reader, 3 failing writer, 4 closed connection (reads and writes fail together)
 	Late   bool   `json:"late"`    // attached by a harness task while traffic addressed to it is already flowing
 	DialHold bool `json:"dial_hold,omitempty"` // the dial returns only when the driver lets it (after the role-fault point, or after the proxy was cancelled)
 }
@@ -79,7 +79,7 @@ func genProxyRaw(hostile bool) func(g *rand.Rand, tier string) any {
 		p.Icpt = g.IntN(4)
 		if hostile {
 			// third peer with a role
-			bad := PeerSpec{Name: "bad", Role: 1 + g.IntN(3)}
+			bad := PeerSpec{Name: "bad", Role: 1 + g.IntN(4)}
 			switch g.IntN(6) {
 			case 0:
 				bad.Role, bad.Dial, bad.DialErr = 0, true, true
@@ -421,6 +421,14 @@ func execProxyRaw(e *Env, pp any) {
 				rp.first.In.FailWrite(InjectedErr(p.ErrKind + 1)) // the proxy's write to this peer fails
 				failed[n] = true
 				badFailedGen = 0
+				e.Note("fault.link.writeFail")
+			case 4:
+				// the connection is closed: the proxy's reads and writes both fail from now on
+				rp.first.Out.FailRead(InjectedErr(p.ErrKind))
+				rp.first.In.FailWrite(InjectedErr(p.ErrKind + 1))
+				failed[n] = true
+				badFailedGen = 0
+				e.Note("fault.link.readFail")
 				e.Note("fault.link.writeFail")
 			}
 		}
@@ -800,7 +808,7 @@ func execProxyRaw(e *Env, pp any) {
 		}
 		// a read failure is always noticed (the proxy is always reading); a write
 		// failure only when the proxy tried to write to the peer afterwards
-		need := bad != nil && bad.spec.Role == 2
+		need := bad != nil && (bad.spec.Role == 2 || bad.spec.Role == 4)
 		if bad != nil && bad.spec.Role == 3 {
 			for _, se := range sents {
 				if se.accepted && se.written && se.final == n && count[se.payload] == 0 {
@@ -917,7 +925,7 @@ func badRoleName(b *rawPeer) string {
 		}
 		return "slow-dial"
 	}
-	return []string{"healthy", "stuck-writer", "failing-reader", "failing-writer"}[b.spec.Role%4]
+	return []string{"healthy", "stuck-writer", "failing-reader", "failing-writer", "closed-connection"}[b.spec.Role%5]
 }
 
 var _ = proto.Equal
